@@ -125,3 +125,108 @@ func H_C12names(s int) {
 	}
 	Entry(verif.TokenSeq(vocab, slots), 12)
 }
+
+// ---- deep and long programs --------------------------------------------------
+
+// deepVocab is a narrow vocabulary (slot width 8) for programs of hundreds of tokens.
+var deepVocab = []string{"a", "T", "let", "where", "take", "project", "join", "on", "as", "f", "not", "in", "and", "or", "1", "'s'",
+	"|", "(", ")", "[", "]", ",", "=", "==", "+", "-", ";", ".", "!", "'u"}
+
+func rep(dst []string, n int, lex ...string) []string {
+	for i := 0; i < n; i++ {
+		dst = append(dst, lex...)
+	}
+	return dst
+}
+
+// DeepFamilies is the number of program families of H_C12deep.
+const DeepFamilies = 18
+
+// deepProgram returns family f at size n as a lexeme list; the families nest or
+// repeat one construct n times (valid and invalid ones).
+func deepProgram(f, n int) []string {
+	p := []string{"T", "|", "where"}
+	switch f {
+	case 0: // nested parentheses
+		p = rep(p, n, "(")
+		p = append(p, "a")
+		p = rep(p, n, ")")
+	case 1: // sign chain
+		p = rep(p, n, "-")
+		p = append(p, "a")
+	case 2: // index chain
+		p = append(p, "a")
+		p = rep(p, n, "[", "1", "]")
+	case 3: // nested calls
+		p = rep(p, n, "f", "(")
+		p = append(p, "a")
+		p = rep(p, n, ")")
+	case 4: // nested joins
+		p = []string{"T"}
+		p = rep(p, n, "|", "join", "(", "T")
+		p = rep(p, n, ")", "on", "a")
+	case 5: // long left-leaning sum
+		p = append(p, "a")
+		p = rep(p, n, "+", "a")
+	case 6: // unclosed parentheses
+		p = rep(p, n, "(")
+		p = append(p, "a")
+	case 7: // empty statements
+		p = rep(nil, n, ";")
+		p = append(p, "T")
+	case 8: // nested in-lists
+		p = rep(p, n, "a", "in", "(")
+		p = append(p, "1")
+		p = rep(p, n, ")")
+	case 9: // nested not()
+		p = rep(p, n, "not", "(")
+		p = append(p, "a")
+		p = rep(p, n, ")")
+	case 10: // long pipeline (many subqueries)
+		p = []string{"T"}
+		p = rep(p, n, "|", "where", "a", "|", "take", "1")
+	case 11: // chain of lets
+		p = nil
+		p = rep(p, n, "let", "a", "=", "a", "+", "1", ";")
+		p = append(p, "T", "|", "where", "a")
+	case 12: // error density: error tokens
+		p = rep(p, n, "!", "'u")
+	case 13: // many columns
+		p = []string{"T", "|", "project"}
+		p = rep(p, n, "a", "=", "a", "+", "1", ",")
+		p = append(p, "a")
+	case 14: // surplus closing brackets
+		p = append(p, "a")
+		p = rep(p, n, ")", "]")
+	case 15: // alternating and/or (precedence climbing both ways)
+		p = append(p, "a")
+		p = rep(p, n, "and", "a", "or", "a", "==", "a")
+	case 16: // nested mixed brackets
+		p = rep(p, n, "f", "(", "a", "[")
+		p = append(p, "1")
+		p = rep(p, n, "]", ")")
+	case 17: // repeated as + where (name tables grow)
+		p = []string{"T"}
+		p = rep(p, n, "|", "as", "a", "|", "where", "a", "==", "1")
+	default:
+		panic("unknown deep family")
+	}
+	return p
+}
+
+// H_C12deep is totality on deep/long programs of family f at size n with two
+// arbitrary tokens (one third and two thirds into the program).
+func H_C12deep(f, n int) {
+	prog := deepProgram(f, n)
+	slots := make([]int, len(prog))
+	for i, l := range prog {
+		slots[i] = vocabIndex(deepVocab, l)
+	}
+	slots[len(slots)/3] = -1
+	slots[2*len(slots)/3] = -1
+	src := verif.TokenSeq(deepVocab, slots)
+	if len(src) >= 2048 {
+		verif.Cover("kilobytes")
+	}
+	Entry(src, 13)
+}
